@@ -4,7 +4,7 @@ import os, pty, random, select, signal, struct, subprocess, fcntl, termios, time
 import concurrent.futures as cf
 from ..runner import Check
 from .. import core
-from ..gen_rv import i_type, j_type, b_type, word_bytes
+from ..gen_rv import i_type, j_type, b_type, word_bytes, T, encode, valid_in, CSRS
 from .elfchk import a8
 
 MLT = os.path.join(core.OUT, "bin", "mltwist")
@@ -170,6 +170,18 @@ class C26(Check):
         for ws in (straight, loop):
             for i in range(len(ws)):
                 add("valid", elf_desc(words=ws, entry=0x1000 + 4 * i))
+        # the whole instruction alphabet of the configuration the tool lifts (RV64IMA): every mnemonic with fields from the edge
+        # grids, eight words per program (branches and jumps have their own cases above and below), and every CSR
+        # instruction with every CSR number of the grid (0, 1, 0x300, 0x7FF, 0x800, 0xC00, 0xFFF)
+        alphabet = [t for t in T if valid_in(t, 64, "MA") and t["fmt"] not in ("B", "J") and t["op"] != 0x67]
+        add("valid", elf_desc(words=[i_type(0x13, 0, 5, 0, 0), i_type(0x67, 0, 1, 5, 0x7FF), i_type(0x67, 0, 0, 1, -2048)]))  # jalr via registers
+        for rnd in range(2 if tier == "quick" else 12):
+            ts = alphabet[:]
+            rng.shuffle(ts)
+            for i in range(0, len(ts), 8):
+                add("valid", elf_desc(words=[encode(t, rng, 64) for t in ts[i:i + 8]] + [i_type(0x13, 0, 0, 0, 0)]))
+        for t in [t for t in alphabet if t["fmt"] == "CSR"]:
+            add("valid", elf_desc(words=[i_type(t["op"], t["f3"], rng.choice([0, 5, 10]), rng.choice([0, 1, 31]), c) for c in CSRS]))
         add("tiny", elf_desc(words=[i_type(0x13, 0, 1, 0, 1)]))       # listing shorter than the view's minimum: ui or error
         add("valid", elf_desc(etype=3))
         add("valid", elf_desc(extra_sects=[{"name": ".data", "stype": 1, "flags": 3, "addr": a8(0x2000), "content": [1, 2, 3, 4], "size": 4}],
